@@ -78,7 +78,16 @@ func (e *Encoder) siteStore(in *ssa.Store, st *State, pc string) {
 }
 
 func (e *Encoder) siteMapUpdate(in *ssa.MapUpdate, st *State, pc string) {
-	sname := e.siteName("mapupdate", in.Map.Name())
+	// selector: mapupdate <value type name>#k, k counting updates of maps with that value type
+	what := "value"
+	if mt, ok := in.Map.Type().Underlying().(*types.Map); ok {
+		if nt, ok := mt.Elem().(*types.Named); ok {
+			what = nt.Obj().Name()
+		} else {
+			what = mt.Elem().String()
+		}
+	}
+	sname := e.siteName("mapupdate", what)
 	e.runSites(sname, st, pc, map[string]Val{"key": e.val(in.Key), "val": e.val(in.Value), "map": e.val(in.Map)})
 }
 
